@@ -178,7 +178,7 @@ def make_judges(ctx):
 def floors(tier):
     cells = [('get_dtype', c, r) for c in ('fxp', 'Q') for r in (None, 'fxp', 'Q')]
     cells += [('parse', op, fam) for op in ('__init__', 'resize') for fam in ('fxp', 'Q', 'UQ', 'S', 'U')]
-    cells += [('fxp_sum', False, 'neg'), ('fxp_sum', True, 'pos'), ('fxp_sum', False, 'pos'), ('fxp_sum', 'Q'), ('attr_complex', 'receiver'), ('attr_complex', 'result'), ('resize-integer-holder',)]
+    cells += [('fxp_sum', False, 'neg'), ('fxp_sum', True, 'pos'), ('fxp_sum', False, 'pos'), ('fxp_sum', 'Q'), ('attr_complex', 'receiver'), ('attr_complex', 'result'), ('resize-integer-holder',), ('get-sizes-both-forms',)]
     return cells
 
 
@@ -322,6 +322,20 @@ def run_case(case, ctx):
             if w <= 40 and (ctx.tier == 'thorough' or j % 7 == 0 or nf < 0):
                 a = _try(lambda: Fxp(np.zeros(2), s, w, nf, dtype_notation=cfgnot))
                 if a is not None:
+                    # the public helper itself in both of its call forms on the SAME string, in both orders, around the fxp_sum calls that use it: three sizes
+                    # (or four with the complex flag), whatever was asked of it before
+                    try:
+                        g = fm.utils.get_sizes_from_dtype
+                        t3 = tuple(g(fx))
+                        _try(lambda: fm.fxp_sum(a, dtype=fx))
+                        t4 = tuple(g(fx, complex_flag=True))
+                        t3b = tuple(g(fx))
+                        if t3 != (s, w, nf) or t3b != t3 or t4[:3] != t3 or len(t4) != 4 or bool(t4[3]):
+                            ctx.violation('get_sizes', 'utils.get_sizes_from_dtype(%r) gave %r, then %r with the complex flag, then %r' % (fx, t3, t4, t3b), key='dtype.get_sizes_forms')
+                        ctx.judged(('get-sizes-both-forms',), True, None)
+                        ctx.floor_hit(('get-sizes-both-forms',))
+                    except Exception as e_:
+                        ctx.violation('get_sizes', 'utils.get_sizes_from_dtype(%r) raised %s' % (fx, type(e_).__name__), key='dtype.get_sizes_forms')
                     _try(lambda: fm.fxp_sum(a, dtype=fx))
                     _try(lambda: fm.fxp_sum(a, dtype=a.dtype))      # (Q notation when that is the configured one)
                     if j % 2:
